@@ -154,6 +154,8 @@ def run(ctx: Ctx):
     col0 = [k for k, v in roles.items() if v == "col0"]
     col1 = [k for k, v in roles.items() if v == "col1"]
     ctx.extra["restraint_columns"] = roles
+    from ..util import persistent_state
+    persistent_state(ctx, "R8.4", [f_ for f_ in (ctx.repo.func(q_, required=False) for q_ in ('Chi2Calculator.__init__', 'Chi2Calculator.chi2_molecules', 'Chi2Calculator._chi2_molecules_with_restrains', 'Chi2Calculator._chi2_molecules_only_restrains', 'Chi2Calculator._chi2_molecules_restrains_contrib')) if f_ is not None], "the overlap measure")
 
     # R8.1: the mobile parameter of the constructor flows only into len()
     uses = [n for n in ast.walk(init.node) if isinstance(n, ast.Name) and n.id == p_mobile and isinstance(n.ctx, ast.Load)]
